@@ -126,6 +126,10 @@ class _P:
                     continue
                 self.expect(")")
                 return d
+        m = re.compile(r"(-?\d+)\.\.(-?\d+)").match(s, self.i)
+        if m:                                   # an interval a..b, printed by TLC for contiguous integer sets
+            self.i = m.end()
+            return TSet(range(int(m.group(1)), int(m.group(2)) + 1))
         m = re.compile(r"-?\d+").match(s, self.i)
         if m:
             self.i = m.end()
